@@ -131,6 +131,8 @@ extern "C" cudaError_t cudaMemcpy(void *dst, const void *src, size_t n, enum cud
         return cudaErrorInvalidValue;
     if (n == 0)
         return cudaSuccess;
+    if (!dst || !src)
+        return cudaErrorInvalidValue; // the real runtime rejects null pointers without touching memory
     bool dd = kind == cudaMemcpyHostToDevice || kind == cudaMemcpyDeviceToDevice;
     bool sd = kind == cudaMemcpyDeviceToHost || kind == cudaMemcpyDeviceToDevice;
     if (kind != cudaMemcpyDefault && kind != cudaMemcpyHostToHost) {
